@@ -9,7 +9,8 @@ installation loop (an ignored signal stays ignored, nothing restored at the end,
 the registration of the running object (main() starts with initInstance(*this); ~Application -> resetInstance clears instance_s
 only if it points to the object being destroyed; the constructor does not register; no other assignment of instance_s), and
 the alarm (POSIX setAlarm installs sigHandler for SIGALRM unconditionally when sec != 0, then alarm(sec); killAlarm only cancels;
-main() arms the time limit after the installation loop; SIGALRM used nowhere else).  coq/Properties_C18.v proves that these are the
+main() arms the time limit after the installation loop; SIGALRM used nowhere else), and the statement order of shutdown(bool) (block,
+killAlarm, THEN the error report of shutdown(true), shutdown()) with main()'s two calls of it.  coq/Properties_C18.v proves that these are the
 values the model (coq/C18/Model.v) is written for.
 """
 import os
@@ -31,6 +32,12 @@ def body_of(txt, header_re):
                 return txt[i + 1:j]
         j += 1
     return None
+
+
+def mn_re(code):
+    """main()'s two ways into shutdown(bool)"""
+    return re.search(r'try\s*\{\s*setup\(\s*\)\s*;\s*run\(\s*\)\s*;\s*shutdown\(\s*false\s*\)\s*;\s*\}\s*'
+                     r'catch\s*\(\s*\.\.\.\s*\)\s*\{\s*shutdown\(\s*true\s*\)\s*;\s*\}', code) is not None
 
 
 def generate(repo):
@@ -78,6 +85,17 @@ def generate(repo):
         problems.append('anchor missing: blockSignals "return fetch_and_inc(blocked_);"')
     if sd is None or not re.search(r'^\s*fetch_and_inc\(blocked_\)\s*;', sd):
         problems.append('anchor missing: shutdown(bool) starts with fetch_and_inc(blocked_);')
+    # the order inside shutdown(bool): the block is taken (and the alarm cancelled) BEFORE the error report of shutdown(true) runs, and
+    # nothing in it releases the block (coq/C18/Disp.v: decode_fops 10 = [FCore Block; FReport]; coq/C18/ProofsShut.v)
+    d['shutdown_blocks_before_report'] = sd is not None and re.fullmatch(
+        r'\s*fetch_and_inc\(blocked_\)\s*;\s*killAlarm\(\s*\)\s*;\s*if\s*\(\s*hasError\s*\)\s*\{?\s*onUnhandledException\(\s*\)\s*;\s*\}?\s*'
+        r'shutdown\(\s*\)\s*;\s*', sd) is not None
+    if not d['shutdown_blocks_before_report']:
+        problems.append('anchor missing: shutdown(bool) "fetch_and_inc(blocked_); killAlarm(); if (hasError) { onUnhandledException(); } shutdown();" '
+                        '(the error report runs after delivery has been blocked)')
+    d['main_error_path_is_shutdown_true'] = mn_re(code)
+    if not d['main_error_path_is_shutdown_true']:
+        problems.append('anchor missing: main() "try { setup(); run(); shutdown(false); } catch (...) { shutdown(true); }"')
     helpers = {
         'fetch_and_inc': r'static\s+long\s+fetch_and_inc\(volatile\s+long&\s*x\)\s*\{\s*return\s+__sync_fetch_and_add\(&x,\s*1\)\s*;\s*\}',
         'fetch_and_dec': r'static\s+long\s+fetch_and_dec\(volatile\s+long&\s*x\)\s*\{\s*return\s+__sync_fetch_and_sub\(&x,\s*1\)\s*;\s*\}',
@@ -177,10 +195,12 @@ def generate(repo):
            'Definition reset_only_if_registered : bool := %s.\nDefinition dtor_resets : bool := %s.\n'
            'Definition main_registers : bool := %s.\nDefinition ctor_registers : bool := %s.\n'
            'Definition setalarm_installs_unconditionally : bool := %s.\nDefinition killalarm_only_cancels : bool := %s.\n'
-           'Definition main_arms_time_limit : bool := %s.\n' % (
+           'Definition main_arms_time_limit : bool := %s.\n'
+           'Definition shutdown_blocks_before_report : bool := %s.\nDefinition main_error_path_is_shutdown_true : bool := %s.\n' % (
                d.get('deliver_at', -1), d.get('release_at', -1), 'true' if d.get('take_atomic') else 'false',
                zl(ys_ps), zl(ys_ub), cb(d.get('handler_ignores_first')), cb(d.get('handler_reinstalls_always')),
                cb(d.get('main_keeps_ignored')), cb(d.get('main_restores_dispositions')), cb(d.get('main_resets_state')),
                cb(d.get('reset_only_if_registered')), cb(d.get('dtor_resets')), cb(d.get('main_registers')), cb(d.get('ctor_registers')),
-               cb(d.get('setalarm_installs_unconditionally')), cb(d.get('killalarm_only_cancels')), cb(d.get('main_arms_time_limit'))))
+               cb(d.get('setalarm_installs_unconditionally')), cb(d.get('killalarm_only_cancels')), cb(d.get('main_arms_time_limit')),
+               cb(d.get('shutdown_blocks_before_report')), cb(d.get('main_error_path_is_shutdown_true'))))
     return coq, d, problems
